@@ -195,7 +195,11 @@ fn eth_call_u256(inst: &mut Inst, to: Address, data: Vec<u8>) -> Option<U256> {
 }
 
 // spellings include cased letters outside ASCII: "any bytes, any case"
-const SPELLINGS: &[&str] = &["ordi", "ORDI", "OrDi", "x", "X", "äbΩ", "ÄBω", "ÄBΩ"];
+// ... and two 33-byte tickers that differ in their last character only (distinct tickers are distinct tokens), and
+// the empty ticker
+const LONG_A: &str = "tttttttttttttttttttttttttttttttta";
+const LONG_B: &str = "ttttttttttttttttttttttttttttttttb";
+const SPELLINGS: &[&str] = &["ordi", "ORDI", "OrDi", "x", "X", "äbΩ", "ÄBω", "ÄBΩ", LONG_A, LONG_B, "TTTTTTTTTTTTTTTTTTTTTTTTTTTTTTTTA", ""];
 
 fn check_ledger(inst: &mut Inst, world: &World) -> Vec<(String, String)> {
     let mut m = Model { bal: BTreeMap::new(), tokens: Vec::new(), findings: Vec::new() };
@@ -349,6 +353,8 @@ pub fn scenarios(tier: &str) -> Vec<Scenario> {
         long_alpha.push(m_block(&format!("B(dep L{}a ordi 5, wd L{}b ordi 1)", fam, fam), vec![dep(a, "ordi", "0x5"), wd(b, "ordi", "0x1")]));
         long_alpha.push(m_block(&format!("B(dep L{}b ordi 2, wd L{}a ordi 3)", fam, fam), vec![dep(b, "ordi", "0x2"), wd(a, "ordi", "0x3")]));
     }
+    long_alpha.push(m_block("B(dep p1 <33 bytes..a> 5, dep p2 <33 bytes..b> 2, wd p1 <33 bytes..b> 1, wd p2 <..B upper case> 1)", vec![dep(1, LONG_A, "0x5"), dep(2, LONG_B, "0x2"), wd(1, LONG_B, "0x1"), wd(2, "TTTTTTTTTTTTTTTTTTTTTTTTTTTTTTTTB", "0x1")]));
+    long_alpha.push(m_block("B(dep p1 <empty ticker> 3, wd p1 <empty ticker> 1)", vec![dep(1, "", "0x3"), wd(1, "", "0x1")]));
     long_alpha.push(m_reorg(0, RTarget::Back(1)));
     vec![
         Scenario {
